@@ -164,6 +164,23 @@ func c01History(c *fw.Ctx, w *world, r *fw.Rand, profile string, steps int) {
 				}
 				got.Docs, exp.Docs = nil, nil
 			}
+			// the modified count may differ where only a decimal128 exponent changed
+			if got.Modified != exp.Modified && got.Modified >= exp.Modified && got.Modified <= m.ModifiedMax {
+				exp.Modified = got.Modified
+			}
+			// distinct values: equal numbers of different types are one value; which
+			// representative is returned is not specified
+			if op.Kind == drv.Distinct && len(got.Values) == len(exp.Values) {
+				same := true
+				for i := range got.Values {
+					if ref.Compare(got.Values[i], exp.Values[i]) != 0 {
+						same = false
+					}
+				}
+				if same {
+					exp.Values = got.Values
+				}
+			}
 			if (got.Err == "") == (exp.Err == "") && got.Err != "" {
 				c.Count("failed_calls_agreed", 1)
 				got.Err, exp.Err = "e", "e"
